@@ -31,54 +31,57 @@ def chain(env):
 
 
 def stamping_rule(prog, run, rid):
-    """R6 (shared with C07): every new record is stamped with the detector's current period/stage/sequence number.
-    storeLeakInformation is folded with the record initialiser inlined over a heap model."""
-    sl = prog.fn(DET + "::storeLeakInformation")
-    run.analysed(sl)
-    ini = prog.fn("MemoryLeakDetectorNode::init")
-    run.analysed(ini)
-    pn = [p["name"] for p in sl.params]
-    NODE = 5000
-    bad, seq_ok, guard_ok, added_ok, got = {}, True, True, True, {}
-    # two valuations that differ in every component: a constant in place of a current value disagrees with one of them
-    for vs, seqno, period, stage in (((NODE, 70000, 24, 9000, 111000, 77), 41, 3, 7), ((NODE, 80000, 1, 9500, 222000, 5), 1000, 1, 2)):
-        vals = dict(zip(pn, vs))
-        env = dict(vals)
-        env.update({"allocationSequenceNumber_": seqno, "current_period_": period, "current_allocation_stage_": stage})
-        added, guards = [], []
-        ev = Evaluator(prog, sl, env=env, calls={TAB + "::addNewNode": lambda *a_: (added.append(a_[-1]), 0)[1],
-                                                   DET + "::addMemoryCorruptionInformation": lambda *a_: (guards.append(a_[-1]), 0)[1]})
-        ev.heap_mode = True
-        ev.inline = {"MemoryLeakDetectorNode::init"}
-        try:
-            ev.run_blocks(sl.entry, max_steps=400)
-        except Unknown as u:
-            run.broke("%s: storeLeakInformation cannot be folded: %s" % (rid, u))
-            return
-        got = {k[len("@%d." % NODE):]: v for k, v in ev.env.items() if k.startswith("@%d." % NODE)}
-        want = {"memory_": vals[pn[1]], "number_": seqno, "size_": vals[pn[2]], "allocator_": vals[pn[3]], "period_": period, "allocation_stage_": stage, "file_": vals[pn[4]], "line_": vals[pn[5]]}
-        bad.update({k: (got.get(k), v) for k, v in want.items() if got.get(k) != v})
-        seq_ok = seq_ok and ev.env.get("allocationSequenceNumber_") == seqno + 1
-        guard_ok = guard_ok and guards == [vals[pn[1]] + vals[pn[2]]]
-        added_ok = added_ok and added == [NODE]
-    run.ob(rid, "storeLeakInformation folded (two valuations): the record holds (memory, sequence number, size, allocator, current period, current stage, file, line) of this allocation", sl.site, not bad, witness=bad or got,
-           what="" if not bad else "a new record does not carry the period/stage/values in force when it was allocated (field: (stored, expected) %s): leaks are attributed to the wrong test or report" % bad)
-    run.ob(rid, "the sequence number advances by one per record", sl.site, seq_ok)
-    run.ob(rid, "the guard bytes are written directly behind the block (memory + size)", sl.site, guard_ok)
-    for f in prog.functions.values():
-        if f.cls == DET:
-            for c in f.calls():
-                if (prog.callee_name(f, c) or "") == DET + "::storeLeakInformation":
-                    ar = [f.strip(x) for x in f.args(c)]
-                    names = [x.get("name") if x is not None and x["k"] == "DeclRefExpr" else None for x in ar]
-                    fp = f.params
-                    sizes = [q["name"] for q in fp if q["ct"] == "unsigned long"]
-                    allocs = [q["name"] for q in fp if q["ct"] == "TestMemoryAllocator *"]
-                    files = [q["name"] for q in fp if q["ct"] == "const char *"]
-                    ok = len(ar) == 6 and len(sizes) == 2 and len(allocs) == 1 and len(files) == 1 and names[2:] == [sizes[0], allocs[0], files[0], sizes[1]] \
-                        and ar[0] is not None and ar[0].get("ct") == "MemoryLeakDetectorNode *"
-                    run.ob(rid, "%s stores the record of the block it just obtained with the caller's size/allocator/location" % f.name, f.site, ok, witness=[render(f, x) for x in f.args(c)])
-    run.ob(rid, "the stamped record is entered into the table once", sl.site, added_ok)
+    """R6 (shared with C07): every new record is stamped with the detector's current period / stage / sequence number and
+    the caller's size, allocator and location. Decided on the entry points (allocMemory and reallocMemory, every member of
+    the detector and the record initialiser inlined) folded over a heap model with two valuations that differ in every
+    component, both bookkeeping layouts: which private helper stores the record, and how it gets its values, is free."""
+    am = [f for f in prog.fns(DET + "::allocMemory") if len(f.params) == 5][0]
+    rm = prog.fn(DET + "::reallocMemory")
+    for f in (am, rm):
+        run.analysed(f)
+    DINL = {g.qn for g in prog.functions.values() if g.qn.startswith(DET + "::")} | {"MemoryLeakDetectorNode::init", "calculateVoidPointerAlignedSize"}
+    guard = [e["v"] for en in prog.enums.values() for e in en["enumerators"] if e["name"] == "memory_corruption_buffer_size"]
+    if not guard:
+        raise AnalysisBroken("memory_corruption_buffer_size not found")
+    M, N, OLD, OLDNODE = 70000, 90000, 50000, 6000
+    for f, realloc in ((am, False), (rm, True)):
+        bad, got_all = {}, {}
+        seq_ok, guard_ok, added_ok = True, True, True
+        for sep in (0, 1):
+            for (alloc, size, file_, line), seqno, period, stage in (((9000, 24, 111000, 77), 41, 3, 7), ((9500, 1, 222000, 5), 1000, 1, 2)):
+                pn = [q["name"] for q in f.params]
+                env = dict(zip(pn, (alloc, OLD, size, file_, line, sep) if realloc else (alloc, size, file_, line, sep)))
+                env.update({"allocationSequenceNumber_": seqno, "current_period_": period, "current_allocation_stage_": stage})
+                added, guards = [], []
+                ev = Evaluator(prog, f, env=env, calls={
+                    "TestMemoryAllocator::alloc_memory": lambda *a_: M, "PlatformSpecificRealloc": lambda *a_: M, "TestMemoryAllocator::allocMemoryLeakNode": lambda *a_: N,
+                    "TestMemoryAllocator::free_memory": lambda *a_: 0, "TestMemoryAllocator::freeMemoryLeakNode": lambda *a_: 0,
+                    TAB + "::addNewNode": lambda *a_: (added.append(a_[-1]), 0)[1], TAB + "::removeNode": lambda *a_: OLDNODE,
+                    DET + "::addMemoryCorruptionInformation": lambda *a_: (guards.append(a_[-1]), 0)[1], DET + "::checkForCorruption": lambda *a_: 0})
+                ev.heap_mode = True
+                ev.inline = DINL - set(ev.calls)
+                ev.optional_stubs = {DET + "::addMemoryCorruptionInformation", DET + "::checkForCorruption"}
+                try:
+                    ev.run_blocks(f.entry, max_steps=3000)
+                except Unknown as u:
+                    run.broke("%s: %s cannot be folded: %s" % (rid, f.qn, u))
+                    return
+                node = added[0] if len(added) == 1 else None
+                got = {k[len("@%s." % node):]: v for k, v in ev.env.items() if node is not None and k.startswith("@%s." % node)}
+                want = {"memory_": M, "number_": seqno, "size_": size, "allocator_": alloc, "period_": period, "allocation_stage_": stage, "file_": file_, "line_": line}
+                bad.update({k: (got.get(k), v) for k, v in want.items() if got.get(k) != v})
+                got_all = got
+                seq_ok = seq_ok and ev.env.get("allocationSequenceNumber_") == seqno + 1
+                # (the guard writer as a stub, or - when it is no member any more and was inlined - its stores behind the block)
+                direct = sorted(k_ for k_, v_ in ev.stores if re.match(r"^@%d\[\d+\]$" % (M + size), k_))
+                guard_ok = guard_ok and (guards == [M + size] or (not guards and direct == sorted("@%d[%d]" % (M + size, j) for j in range(guard[0]))))
+                added_ok = added_ok and len(added) == 1
+        what_ = "%s folded (two valuations x both layouts)" % f.name
+        run.ob(rid, what_ + ": the record holds (memory, sequence number, size, allocator, current period, current stage, file, line) of this allocation", f.site, not bad, witness=bad or got_all,
+               what="" if not bad else "a new record does not carry the period/stage/values in force when it was allocated (field: (stored, expected) %s): leaks are attributed to the wrong test or report" % bad)
+        run.ob(rid, what_ + ": the sequence number advances by one per record", f.site, seq_ok)
+        run.ob(rid, what_ + ": the guard bytes are written directly behind the block (memory + size)", f.site, guard_ok)
+        run.ob(rid, what_ + ": the stamped record is entered into the table once", f.site, added_ok)
 
 
 def list_total_rule(prog, run, rid, maxn=4):
